@@ -817,6 +817,7 @@ func RunC12(run *vk.Run) {
 		run.Extra["histories_outside_the_models_name_space"] = unmodelled.Load()
 		run.Extra["real_traces_accepted_by_spec"] = len(traces) - len(rej)
 	}
+	c12ZonePass(run)
 	run.Exhaustive = true
-	run.Rule = "every command history of the tier's length over {bootstrap(serial, overwrite), rotate(serial override, overwrite), wipeout ca|keys|all} emitted by TLC (including re-bootstrap over a populated authority) is executed through the cobra commands for memkm+memca, localkm+gcsca and localkm+localca, sharing prefixes by cloning the authority; after every command the certificates are read back and the C12 predicates evaluated; distinct = (combination, history prefix)"
+	run.Rule = "every command history of the tier's length over {bootstrap(serial, overwrite), rotate(serial override, overwrite), wipeout ca|keys|all} emitted by TLC (including re-bootstrap over a populated authority) is executed through the cobra commands for memkm+memca, localkm+gcsca and localkm+localca, sharing prefixes by cloning the authority; after every command the certificates are read back and the C12 predicates evaluated; bootstrap; rotate also through the library entry points with creation times in five time zones on both sides of their daylight-saving switches (lifetimes are days of 24 h from the creation instant); distinct = (combination, history prefix)"
 }
